@@ -28,7 +28,9 @@ PROPERTY = 'C14'
 LEVEL = 'exploration'
 RULE = ('Hypothesis-generated configurations of 1-6 direct WMS sources (2 upstream hosts; per source: transparent, '
         'opacity incl. 0 and 1, transparent_color+tolerance, shared bbox/polygon coverages with/without clip, '
-        'min_res/max_res) in WMS layers of 1-3 sources (+ optional group layer, layer-level res range) x 3-7 GetMap '
+        'min_res/max_res) in WMS layers of 1-3 sources (+ optional group layer, layer-level res range; '
+        'services.wms.on_source_errors raise / notify / absent; in a third of the configurations services.wms.bbox_srs '
+        'with an explicit extent whose edges run through a coverage, half of whose requests reach 25-70 % beyond it) x 3-7 GetMap '
         'requests each (ordered subset of 1-5 layers, transparent flag, bgcolor, png/jpeg, 4 resolutions, window anchored on coverage edges / inside coverages / free). Upstream '
         'layer images: analytic RGBA fields (opaque, stripe/checker holes, soft alpha, colour-key cells, hidden '
         'colours) delivered as RGB/RGBA/P+transparency index/RGB+tRNS; LAYERS=a,b answered with the server-side '
@@ -47,6 +49,10 @@ ASSUMPTIONS = [
     'TRANSPARENT=TRUE + JPEG the pixels that are not opaque in the reference',
     'a request that renders exactly one layer image with opacity < 1 may show it faded against the background or unchanged '
     '(doc: opacity "only effects when multiple layers are merged")',
+    'services.wms.bbox_srs with an explicit bbox: beyond that extent the answer is background (bgcolor, or fully transparent '
+    'even for TRANSPARENT=FALSE - MapProxy pastes the rendered part on a transparent canvas and with image.paletted false '
+    'the alpha survives); pixels within 4.05 px of the extent edge are not judged; inside, every layer image may be displaced '
+    'by 1.05 px (own pixel grid of the limited request), so the displacement/edge bands above are widened by 1.05 px',
     'a source declared `transparent: false` that can be merged with its lower neighbour into one upstream request has '
     'no empty areas (a WMS answers TRANSPARENT=FALSE&LAYERS=a,b with b drawn over a, not with b flattened on white)',
 ]
@@ -323,7 +329,7 @@ def sources(draw, ncov):
         'range': None,
     }
     if ncov and draw(st.integers(0, 2)) == 0:
-        s['cov'] = [draw(st.integers(0, ncov - 1)), draw(st.booleans())]
+        s['cov'] = [draw(st.integers(0, ncov - 1)), draw(st.integers(0, 2)) > 0]
     if draw(st.integers(0, 3)) == 0:
         s['range'] = draw(st.sampled_from(RANGES))
     s['field'] = draw(fields(tc))
@@ -331,18 +337,31 @@ def sources(draw, ncov):
 
 
 @st.composite
-def requests(draw, names, ncov):
+def requests(draw, names, ncov, near_sides=(), hint=None, must=None):
     n = min(draw(st.sampled_from([1, 1, 2, 2, 2, 3, 3, 4, 5])), len(names), 5)
     order = draw(st.permutations(names))
-    kind = draw(st.sampled_from(['free', 'free', 'edge', 'edge', 'inside'] if ncov else ['free']))
-    if kind == 'free':
+    kinds = ['free', 'free', 'edge', 'edge', 'inside'] if ncov else ['free']
+    if near_sides:
+        kinds = kinds + ['extent'] * len(kinds)      # half of the requests reach beyond the configured SRS extent
+    kind = draw(st.sampled_from(kinds))
+    if kind == 'extent':
+        side = draw(st.sampled_from(list(near_sides)))
+        along = draw(st.integers(3, 13)) * 160.0
+        anchor = ['extent', side, along, draw(st.sampled_from([0.25, 0.5, 0.5, 0.7]))]
+        if hint is not None and draw(st.integers(0, 3)) > 0:
+            # centre the window where the edge of coverage `hint` crosses the middle of the part inside the extent
+            anchor += [hint, draw(st.integers(0, 3))]
+    elif kind == 'free':
         anchor = ['free', draw(st.integers(3, 13)) * 160.0, draw(st.integers(3, 13)) * 160.0]
     elif kind == 'edge':
         anchor = ['edge', draw(st.integers(0, ncov - 1)), draw(st.integers(0, 31)) / 32.0]
     else:
         anchor = ['inside', draw(st.integers(0, ncov - 1))]
+    layers_ = list(order[:n])
+    if kind == 'extent' and must is not None and must not in layers_ and draw(st.integers(0, 3)) > 0:
+        layers_[draw(st.integers(0, len(layers_) - 1))] = must      # a layer that is clipped to the hinted coverage
     return {
-        'layers': list(order[:n]),
+        'layers': layers_,
         'transparent': draw(st.booleans()),
         'bgcolor': draw(st.sampled_from([[255, 255, 255], [255, 255, 255], [0, 0, 0], [30, 60, 200], [250, 240, 10]])),
         'format': draw(st.sampled_from(['png', 'png', 'png', 'png', 'jpeg'])),
@@ -355,6 +374,8 @@ def requests(draw, names, ncov):
 
 @st.composite
 def cases(draw):
+    # two renderer loops exist (on_source_errors raise / notify = default): half of the configurations each
+    on_err = [None, 'notify', 'raise', 'raise'][draw(st.integers(0, 3))]
     ncov = draw(st.sampled_from([0, 1, 2, 2, 3]))
     covs = [draw(coverages()) for _ in range(ncov)]
     nsrc = draw(st.sampled_from([1, 2, 2, 3, 3, 4, 4, 5, 5, 6, 6]))
@@ -412,9 +433,37 @@ def cases(draw):
                     names.extend('L%d' % k for k in range(group[0], group[1] + 1))
         else:
             names.append('L%d' % li)
+    # services.wms.bbox_srs with an explicit bbox for the request SRS: one or two sides of that extent cross the
+    # canvas (preferably a few pixels beside a point on a coverage edge), the others are far away
+    extent, near_sides, hint, must = None, [], None, None
+    if draw(st.integers(0, 2)) == 0:
+        far = 200000.0
+        extent = [-far, -far, far, far]
+        sx = draw(st.sampled_from([None, 0, 2, 0, 2]))
+        sy = draw(st.sampled_from([None, 1, 3])) if sx is not None else draw(st.sampled_from([1, 3]))
+        near_sides = [sd for sd in (sx, sy) if sd is not None]
+        if ncov and draw(st.integers(0, 3)) > 0:
+            clipped = sorted(set(s_['cov'][0] for s_ in srcs if s_['cov'] is not None and s_['cov'][1]))
+            pick = clipped if clipped else list(range(ncov))      # prefer a coverage that some source is clipped to
+            k_ = pick[draw(st.integers(0, len(pick) - 1))]
+            g = cov_geom(covs[k_])
+            hint = k_
+            for li, lay in enumerate(layers):
+                if any(srcs[i]['cov'] is not None and srcs[i]['cov'] == [k_, True] for i in lay['sources']):
+                    nm = 'L%d' % li
+                    must = nm if nm in names else ('G' if 'G' in names else None)
+        for sd in near_sides:
+            if hint is not None:
+                # the extent edge runs through the coverage
+                b_ = g.bounds
+                lo, hi = b_[sd % 2], b_[sd % 2 + 2]
+                extent[sd] = round(lo + draw(st.sampled_from([0.3, 0.5, 0.7])) * (hi - lo), 3)
+            else:
+                extent[sd] = draw(st.integers(4, 12)) * 160.0 + draw(st.sampled_from([0.0, 3.3]))
     nreq = draw(st.integers(3, 7))
-    reqs = [draw(requests(names, ncov)) for _ in range(nreq)]
-    return {'covs': covs, 'sources': srcs, 'layers': layers, 'group': group, 'requests': reqs}
+    reqs = [draw(requests(names, ncov, near_sides, hint, must)) for _ in range(nreq)]
+    return {'covs': covs, 'sources': srcs, 'layers': layers, 'group': group, 'requests': reqs,
+            'extent': extent, 'on_err': on_err}
 
 
 # ------------------------------------------------------------------------------------------------
@@ -471,11 +520,16 @@ def build_conf(case, base_dir):
             if lay['range'][1] is not None:
                 d['max_res'] = lay['range'][1]
         lays.append(d)
+    wms = {'srs': [SRS], 'image_formats': ['image/png', 'image/jpeg']}
+    if case.get('on_err'):
+        wms['on_source_errors'] = case['on_err']
+    if case.get('extent') is not None:
+        wms['bbox_srs'] = [{'srs': SRS, 'bbox': [float(v) for v in case['extent']]}]
     g = case.get('group')
     if g:
         lays = lays[:g[0]] + [{'name': 'G', 'title': 'group', 'layers': lays[g[0]:g[1] + 1]}] + lays[g[1] + 1:]
     return {
-        'services': {'wms': {'srs': [SRS], 'image_formats': ['image/png', 'image/jpeg']}},
+        'services': {'wms': wms},
         'layers': lays,
         'sources': srcs,
     }
@@ -509,6 +563,25 @@ def request_bbox(case, rq):
     a = rq['anchor']
     if a[0] == 'free':
         cx, cy = a[1], a[2]
+    elif a[0] == 'extent':
+        # ['extent', side 0..3 (x0, y0, x1, y1), coordinate along that side, fraction of the window beyond the extent]
+        E = case['extent']
+        side, along, f = a[1], a[2], a[3]
+        span = (w if side in (0, 2) else h) * res
+        inward = 1.0 if side in (0, 1) else -1.0
+        c = E[side] + (0.5 - f) * span * inward
+        if len(a) > 4:
+            from shapely.geometry import LineString
+            g = cov_geom(case['covs'][a[4]])
+            mid = E[side] + (1.0 - f) * span / 2.0 * inward
+            far = 1e6
+            line = LineString([(mid, -far), (mid, far)] if side in (0, 2) else [(-far, mid), (far, mid)])
+            hits = g.exterior.intersection(line)
+            pts = [q for q in getattr(hits, 'geoms', [hits]) if q.geom_type == 'Point']
+            if pts:
+                vals = sorted(q.y if side in (0, 2) else q.x for q in pts)
+                along = vals[a[5] % len(vals)]
+        cx, cy = (c, along) if side in (0, 2) else (along, c)
     else:
         g = cov_geom(case['covs'][a[1]])
         if a[0] == 'edge':
@@ -547,6 +620,26 @@ def prepare_entries(case, rq, bbox):
     res = rq['res']
     X, Y = centres(bbox, size)
     qbox = box(*bbox)
+    # services.wms.bbox_srs with an explicit bbox: a request that reaches beyond that extent is rendered for the part
+    # inside only (own pixel grid: integer-truncated paste offset, up to 1 px displaced) and pasted on the background
+    ext = {'limited': False, 'fully_outside': False, 'degenerate': False, 'outside': None, 'band': None}
+    D = 0.0
+    E = case.get('extent')
+    if E is not None and not box(*E).contains(qbox):
+        ebox = box(*E)
+        ext['limited'] = True
+        D = 1.05
+        pts_ = shapely.points(X, Y)
+        ext['outside'] = ~shapely.contains_xy(ebox, X, Y)
+        ext['band'] = shapely.distance(ebox.boundary, pts_) / res <= 3.0 + D
+        inter_ = ebox.intersection(qbox)
+        if inter_.is_empty or inter_.area == 0.0:
+            ext['fully_outside'] = True
+        else:
+            ib_ = inter_.bounds
+            if ib_[2] - ib_[0] < 3.0 * res or ib_[3] - ib_[1] < 3.0 * res:
+                ext['degenerate'] = True
+            qbox = box(*ib_)     # what MapProxy asks its layers for
     entries = []
     for li, via_group in expand_layers(case, rq['layers']):
         lay = case['layers'][li]
@@ -589,13 +682,15 @@ def prepare_entries(case, rq, bbox):
                 e.contains_query = bool(geom.contains(qbox))
                 if not gb.contains(qbox):
                     e.subquery = True
-                    displaced = []
-                    for ox in (-1.0, -0.5, 0.0, 0.5, 1.0):
-                        for oy in (-1.0, -0.5, 0.0, 0.5, 1.0):
-                            d = field_rgba(f, X + ox * res, Y + oy * res)
-                            if not s['transparent']:
-                                d = np.rint(flatten(d))
-                            displaced.append(d)
+            R = (1.0 if e.subquery else 0.0) + D     # possible displacement of the layer image in pixels
+            if R > 0:
+                displaced = []
+                for ox in (-R, -R / 2, 0.0, R / 2, R):
+                    for oy in (-R, -R / 2, 0.0, R / 2, R):
+                        d = field_rgba(f, X + ox * res, Y + oy * res)
+                        if not s['transparent']:
+                            d = np.rint(flatten(d))
+                        displaced.append(d)
             if s['tc'] is not None:
                 key = np.asarray(s['tc'][:3], dtype=float)
                 tol = s['tc'][3]
@@ -615,7 +710,7 @@ def prepare_entries(case, rq, bbox):
                 e.var = (pm.max(axis=0) - pm.min(axis=0)).max(axis=-1)
                 # the lattice bounds the smooth part; jumps closer than the possible displacement (1 px per axis,
                 # 1.5 px along a diagonal normal) are found analytically - a lattice misses slivers between two edges
-                e.dontcare |= (e.var > 3.0) | near_discontinuity(f, X, Y, 1.5 * res)
+                e.dontcare |= (e.var > 3.0) | near_discontinuity(f, X, Y, (R + 0.5) * res)
             if geom is not None:
                 clip = bool(s['cov'][1])
                 pts = shapely.points(X, Y)
@@ -624,14 +719,15 @@ def prepare_entries(case, rq, bbox):
                 gbounds = box(*geom.bounds)
                 in_bb = shapely.contains_xy(gbounds, X, Y)
                 dist_bb = shapely.distance(gbounds.boundary, pts) / res
-                near = dist <= 1.1
+                near = dist <= 1.1 + D
                 if clip:
                     e.dontcare |= near
                     img[..., 3] = np.where(inside, img[..., 3], 0.0)
                     e.clip_edge = bool(near.any())
+                    e.clip_near = near
                 else:
                     # inside the polygon: served; outside the coverage bbox: transparent; in between: not judged
-                    e.dontcare |= near | (dist_bb <= 1.1) | (in_bb & ~inside)
+                    e.dontcare |= near | (dist_bb <= 1.1 + D) | (in_bb & ~inside)
                     img[..., 3] = np.where(in_bb, img[..., 3], 0.0)
                 inter = geom.intersection(qbox).area
                 e.maybe = bool(geom.distance(qbox) <= 1e-6 * res)
@@ -639,9 +735,13 @@ def prepare_entries(case, rq, bbox):
                 ib = gbounds.intersection(qbox).bounds if gbounds.intersects(qbox) else (0.0, 0.0, 0.0, 0.0)
                 e.certain = (e.maybe and inter > (res * res) * 1e-3
                              and ib[2] - ib[0] >= 2.0 * res and ib[3] - ib[1] >= 2.0 * res)
+            if ext['limited']:
+                img[..., 3] = np.where(ext['outside'], 0.0, img[..., 3])   # nothing is drawn beyond the SRS extent
+            if ext['fully_outside']:
+                e.certain = e.maybe = False
             e.img = img
             entries.append(e)
-    return entries, (X, Y)
+    return entries, (X, Y), ext
 
 
 def compose(entries, rq, shape, opacity_of=None, skip=()):
@@ -659,7 +759,7 @@ def compose(entries, rq, shape, opacity_of=None, skip=()):
     return out
 
 
-def compare(got, exp, judged, tol_px, transparent_result):
+def compare(got, exp, judged, tol_px, transparent_result, blank_ok=None):
     """got uint8 RGBA [h,w,4]; exp float straight RGBA; returns boolean array of bad judged pixels + worst error"""
     g = got.astype(float)
     if transparent_result:
@@ -673,6 +773,9 @@ def compare(got, exp, judged, tol_px, transparent_result):
         err = np.abs(g[..., :3] - exp[..., :3]).max(axis=-1)
         err = np.maximum(err, 255.0 - g[..., 3])
     bad = judged & (err > tol_px)
+    if blank_ok is not None:
+        # beyond the configured SRS extent a fully transparent pixel is accepted as "background" on opaque output, too
+        bad &= ~(blank_ok & (got[..., 3] == 0))
     worst = float(np.where(judged, err - tol_px, -1e9).max()) if judged.any() else -1.0
     return bad, worst, err
 
@@ -755,14 +858,18 @@ def reduce_case(case, rq):
             names.append('L%d' % lmap[int(n[1:])])
     rq2 = dict(rq)
     rq2['layers'] = names
-    return {'covs': case['covs'], 'sources': sources_, 'layers': layers, 'group': group, 'requests': [rq2]}
+    return {'covs': case['covs'], 'sources': sources_, 'layers': layers, 'group': group, 'requests': [rq2],
+            'extent': case.get('extent'), 'on_err': case.get('on_err')}
 
 
 def check_request(case, rq, app, up, st_, open_sigs, ri):
     bbox = request_bbox(case, rq)
     size = tuple(rq['size'])
     res = rq['res']
-    entries, (X, Y) = prepare_entries(case, rq, bbox)
+    entries, (X, Y), ext = prepare_entries(case, rq, bbox)
+    if ext['degenerate']:
+        st_.excluded['request overlaps the configured SRS extent by less than 3 px'] += 1
+        return None
     vis = [e for e in entries if e.visible]
     shape = X.shape
     fmt = rq['format']
@@ -836,6 +943,8 @@ def check_request(case, rq, app, up, st_, open_sigs, ri):
     # ---- reference --------------------------------------------------------------------------------
     exp = compose(entries, rq, shape)
     judged = np.ones(shape, bool)
+    if ext['limited']:
+        judged &= ~ext['band']
     tol = np.full(shape, 2.0 * max(1, len(vis)))
     for e in vis:
         judged &= ~e.dontcare
@@ -855,7 +964,7 @@ def check_request(case, rq, app, up, st_, open_sigs, ri):
         exp_cmp = np.concatenate([flat, np.full(shape + (1,), 255.0)], axis=-1)
     else:
         exp_cmp = exp
-    bad, worst, err = compare(got, exp_cmp, judged, tol, transparent_result)
+    bad, worst, err = compare(got, exp_cmp, judged, tol, transparent_result, ext['outside'])
 
     # ---- classes / statistics ---------------------------------------------------------------------
     classes = ['layers:%d' % len(vis), 'fmt:' + fmt, 'req-transparent:%s' % bool(rq['transparent'])]
@@ -900,6 +1009,15 @@ def check_request(case, rq, app, up, st_, open_sigs, ri):
         classes.append('single-upstream-image')
     if 'G' in rq['layers']:
         classes.append('group-layer-request')
+    classes.append('on_source_errors:%s' % (case.get('on_err') or 'absent'))
+    if case.get('on_err') == 'raise' and any(e.clip_edge and e.cov['kind'] == 'poly' and e.maybe for e in vis):
+        classes.append('on_source_errors:raise+polygon-clip-edge-in-window')
+    if case.get('extent') is not None:
+        classes.append('srs-extent-configured')
+    if ext['limited']:
+        classes.append('request-beyond-srs-extent' + (':fully' if ext['fully_outside'] else ''))
+        if any(e.clip_edge and bool((e.clip_near & ~ext['outside'] & ~ext['band']).any()) for e in vis):
+            classes.append('request-beyond-srs-extent:clip-edge-inside')
     if transparent_result:
         classes.append('result:rgba')
     else:
@@ -918,6 +1036,8 @@ def check_request(case, rq, app, up, st_, open_sigs, ri):
         st_.notes['unjudged_pixels_jpeg'] += int((~judged).sum())
     st_.notes['unjudged_pixels'] += int((~judged).sum())
 
+    if ext['limited'] and not rq['transparent'] and bool((ext['outside'] & judged & (got[..., 3] == 0)).any()):
+        st_.notes['TRANSPARENT=FALSE request beyond the SRS extent answered with alpha 0 outside the extent (accepted)'] += 1
     if not bad.any():
         return None
 
@@ -933,7 +1053,7 @@ def check_request(case, rq, app, up, st_, open_sigs, ri):
                 j2 = judged & (local_range(alt[..., :3]) <= 8.0)
             else:
                 j2 = judged
-            bad2, _, _ = compare(got, alt, j2, tol, transparent_result)
+            bad2, _, _ = compare(got, alt, j2, tol, transparent_result, ext['outside'])
             if not bad2.any():
                 st_.notes['single-image-with-opacity-served-unfaded (accepted, doc)'] += 1
                 return None
@@ -988,7 +1108,7 @@ def check_request(case, rq, app, up, st_, open_sigs, ri):
                                   opacity_of=(lambda j, en: 1.0 if (op1 and j == k) else en.opacity))
                     if fmt == 'jpeg':
                         alt = np.concatenate([flatten(alt, rq['bgcolor'])[..., :3], np.full(shape + (1,), 255.0)], axis=-1)
-                    bad2, _, _ = compare(got, alt, judged, tol, transparent_result)
+                    bad2, _, _ = compare(got, alt, judged, tol, transparent_result, ext['outside'])
                     if not bad2.any():
                         return core.Violation(SIG_OPZERO, 'a source with opacity: 0 (documented: fully transparent) is treated as opaque: '
                                               'the layers below it are not rendered: %s' % where, vcase)
@@ -1070,7 +1190,7 @@ def check_case(case, st_, collect=None):
 
 def random_shard(shard, nshards, seed, tier):
     st_ = core.Stats()
-    n = (12800 if tier == 'quick' else 240000) // nshards
+    n = (11200 if tier == 'quick' else 240000) // nshards
     _SCRATCH['dir'] = tempfile.mkdtemp(prefix='c14_')
     try:
         core.hyp_search(cases(), check_case, st_, max_examples=n, seed=seed, shrink=False)
